@@ -241,14 +241,19 @@ func attemptCheck(r *vrt.Result) string {
 				lateTicks++
 			}
 		}
-		if cmode == 2 && lateTicks > 1 {
+		if cmode >= 2 && lateTicks > 1 {
 			return fmt.Sprintf("ticks-after-cancel: %d ticks were forwarded after the context was cancelled (at most one allowed)", lateTicks)
 		}
 		if after > 2 {
 			return fmt.Sprintf("after-cancel: %d values received after cancellation (at most one buffered and one in flight)", after)
 		}
 		// closed promptly: no further tick needed beyond the one in flight
-		if closedClock >= 0 && r.EarlyFires == 0 && closedClock != cancelledClock {
+		if cmode == 3 {
+			// cancellation is only visible at the next tick: closure within one tick
+			if closedClock >= 0 && r.EarlyFires == 0 && closedClock-cancelledClock > int(10*time.Millisecond) {
+				return fmt.Sprintf("close-late: with a context whose Done never fires the channel was closed %v after cancellation (more than one tick)", time.Duration(closedClock-cancelledClock))
+			}
+		} else if closedClock >= 0 && r.EarlyFires == 0 && closedClock != cancelledClock {
 			return fmt.Sprintf("close-needs-tick: after cancellation the channel was closed only %v of virtual time later (a tick was needed)", time.Duration(closedClock-cancelledClock))
 		}
 	}
